@@ -173,11 +173,18 @@ for case in range(max(2, n // 10)):
     rows = [[rng.choice(VALS) for _ in range(ln)] for _ in range(k)]
     conts = nd_containers(rows)
     conts['list_of_arrays'] = [np.array(r) for r in rows]
+    conts['list_of_array.array'] = [array.array('d', r) for r in rows]
+    wide = np.zeros((len(rows), 2 * ln))
+    wide[:, ::2] = np.array(rows)
+    conts['list_of_strided_views'] = [wide[i, ::2] for i in range(len(rows))]
+    colm = np.array(rows, dtype=np.double).T.copy()          # (length, k): the series are its columns
+    conts['list_of_column_views'] = [colm[:, i] for i in range(len(rows))]
     for name, fn in (('dtw.distance_matrix', lambda s: dtw.distance_matrix(s)),
                      ('dtw.distance_matrix_fast', lambda s: dtw.distance_matrix_fast(s, parallel=False)),
                      ('dtw.distance_matrix_fast(block)', lambda s: dtw.distance_matrix_fast(s, block=((0, k - 1), (1, k)), parallel=False))):
         ref = None
-        for kind in ('c_order', 'f_order', 'strided_rows', 'strided_cols', 'list_of_arrays'):
+        for kind in ('c_order', 'f_order', 'strided_rows', 'strided_cols', 'list_of_arrays', 'list_of_array.array',
+                     'list_of_strided_views', 'list_of_column_views'):
             s = conts[kind]
             snap = [snapshot(x) for x in s] if isinstance(s, list) else snapshot(s)
             try:
@@ -194,5 +201,29 @@ for case in range(max(2, n // 10)):
             elif not same(ref[1], r1):
                 problems.append(dict(routine=name, container=kind, rows=rows,
                                      what='result differs between containers %s and %s' % (ref[0], kind)))
+# collections of multivariate series: list of C-ordered arrays vs list of transposed (Fortran-ordered) views vs one 3-D array
+for case in range(max(2, n // 10)):
+    k, ln, nd = rng.randint(2, 3), rng.randint(2, 4), 2
+    sers = [np.array([[rng.choice(VALS) for _ in range(nd)] for _ in range(ln)], dtype=np.double) for _ in range(k)]
+    conts = {'list_c': [s.copy() for s in sers], 'list_f_views': [s.T.copy().T for s in sers], 'array3d': np.array(sers)}
+    for name, fn in (('dtw_ndim.distance_matrix', lambda s: dtw_ndim.distance_matrix(s)),
+                     ('dtw_ndim.distance_matrix_fast', lambda s: dtw_ndim.distance_matrix_fast(s, parallel=False))):
+        ref = None
+        for kind in ('list_c', 'list_f_views', 'array3d'):
+            s = conts[kind]
+            snap = [snapshot(x) for x in s] if isinstance(s, list) else snapshot(s)
+            try:
+                r1 = fn(s)
+            except Exception as e:      # noqa
+                problems.append(dict(routine=name, container=kind, what='raised %s: %s' % (type(e).__name__, str(e)[:100])))
+                continue
+            evaluations += 1
+            distinct.add((name, kind, 'nd', case))
+            if ([snapshot(x) for x in s] if isinstance(s, list) else snapshot(s)) != snap:
+                problems.append(dict(routine=name, container=kind, what='the collection was modified'))
+            if ref is None:
+                ref = (kind, r1)
+            elif not same(ref[1], r1):
+                problems.append(dict(routine=name, container=kind, what='result differs between containers %s and %s' % (ref[0], kind)))
 print('@@JSON@@' + json.dumps(dict(evaluations=evaluations, distinct_nontrivial=len(distinct), problems=problems[:300],
                                    n_problems=len(problems), samples=samples)))
